@@ -251,7 +251,8 @@ impl Lowerer {
         #[cfg(prqlc_verif)]
         verif_op(
             if matches!(relation.kind, rq::RelationKind::ExternRef(_)) { "extern" } else { "table" },
-            serde_json::json!({"tid": id, "name": name, "columns": relation.columns}),
+            serde_json::json!({"tid": id, "name": name, "columns": relation.columns,
+                "kind": if matches!(relation.kind, rq::RelationKind::ExternRef(_)) { Some(&relation.kind) } else { None }}),
         );
 
         let table = TableDecl { id, name, relation };
@@ -741,6 +742,8 @@ impl Lowerer {
         let lineage = lineage.unwrap_or_default();
 
         log::debug!("push_select of a frame: {lineage:?}");
+        #[cfg(prqlc_verif)]
+        verif_op("push_select", serde_json::json!({"lineage": lineage}));
 
         let mut columns = Vec::new();
 
@@ -1363,6 +1366,11 @@ fn toposort_tables(
     dependencies.sort_by(|a, b| a.0.cmp(&b.0));
 
     let sort = toposort(&dependencies, Some(main_table)).unwrap();
+    #[cfg(prqlc_verif)]
+    log::debug!(
+        "verif:toposort_tables {}",
+        serde_json::json!({"dependencies": dependencies, "main": main_table, "order": sort})
+    );
 
     let mut tables = tables;
     sort.into_iter()
